@@ -284,6 +284,21 @@ class BaseSQLURLTable(BaseURLTable):
             session.execute(query)
 
 
+def create_schema(engine):
+    '''Create the tables and indexes that do not exist yet.
+
+    ``create_all`` skips a table that already exists together with its
+    indexes. A start up that was interrupted between ``CREATE TABLE`` and
+    ``CREATE INDEX`` would otherwise leave the table without its unique
+    index for good and the same URL could be queued more than once.
+    '''
+    DBBase.metadata.create_all(engine)
+
+    for table in DBBase.metadata.tables.values():
+        for index in table.indexes:
+            index.create(engine, checkfirst=True)
+
+
 class SQLiteURLTable(BaseSQLURLTable):
     '''URL table with SQLite storage.
 
@@ -301,7 +316,7 @@ class SQLiteURLTable(BaseSQLURLTable):
             'sqlite:///{0}'.format(escaped_path), poolclass=SingletonThreadPool)
         sqlalchemy.event.listen(
             self._engine, 'connect', self._apply_pragmas_callback)
-        DBBase.metadata.create_all(self._engine)
+        create_schema(self._engine)
         self._session_maker_instance = sessionmaker(bind=self._engine)
 
     @classmethod
@@ -331,7 +346,7 @@ class GenericSQLURLTable(BaseSQLURLTable):
     def __init__(self, url):
         super().__init__()
         self._engine = create_engine(url)
-        DBBase.metadata.create_all(self._engine)
+        create_schema(self._engine)
         self._session_maker_instance = sessionmaker(bind=self._engine)
 
     @property
